@@ -1227,7 +1227,12 @@ void shareClonedImportSources(const ComponentConstPtr &original, const Component
         shareClonedImportSource(original->importSource(), clone, map);
     }
     for (size_t index = 0; (index < original->variableCount()) && (index < clone->variableCount()); ++index) {
-        shareClonedImportSources(original->variable(index)->units(), clone->variable(index)->units(), map);
+        // Units that belong to a model are handled through the model's list of units: a cloned
+        // variable is linked to them by name and need not use the counterpart of the original's units.
+        auto clonedUnits = clone->variable(index)->units();
+        if ((clonedUnits != nullptr) && !clonedUnits->hasParent()) {
+            shareClonedImportSources(original->variable(index)->units(), clonedUnits, map);
+        }
     }
     for (size_t index = 0; (index < original->componentCount()) && (index < clone->componentCount()); ++index) {
         shareClonedImportSources(original->component(index), clone->component(index), map);
